@@ -665,7 +665,24 @@ func extractWALFileInfo(baseDir string) (map[string]*walFilesInfo, error) {
 		filesInfo[key].walFiles = append(filesInfo[key].walFiles, fileName)
 	}
 
+	// os.ReadDir sorts by name, which puts "..._10.wal" before "..._2.wal"; replay in the order the files were written
+	for _, info := range filesInfo {
+		sort.SliceStable(info.walFiles, func(i, j int) bool {
+			return walFileIndex(info.walFiles[i]) < walFileIndex(info.walFiles[j])
+		})
+	}
+
 	return filesInfo, nil
+}
+
+// walFileIndex returns the <walFileIndex> of "shardId_<shard>_segId_<segID>_blockId_<blockNo>_<walFileIndex>.wal"
+func walFileIndex(fileName string) uint64 {
+	parts := strings.Split(strings.TrimSuffix(fileName, ".wal"), "_")
+	idx, err := strconv.ParseUint(parts[len(parts)-1], 10, 64)
+	if err != nil {
+		return math.MaxUint64
+	}
+	return idx
 }
 
 func deleteWalFile(dirPath, fileName string) error {
